@@ -474,6 +474,13 @@ def run_property(pid, tier, seed):
         except AbortBudget:
             ev = {"coverage": {"stopped": f"the real library aborted on {len(ctx.aborts)} operations; exploration stopped"},
                   "violations": []}
+        except Exception as ex:      # the evaluator could not interpret what the library returned
+            import traceback
+            tb = traceback.format_exc()
+            log("evaluator raised:", tb)
+            ev = {"coverage": {"stopped": "the evaluator raised " + repr(ex)}, "violations": []}
+            broken.append({"kind": "evaluator", "name": f"checks/props/{pid}.py evaluate()",
+                           "detail": "the evaluator raised while interpreting the library's answers: " + tb[-1500:]})
         ctx.in_evaluator = False
         # ---- aborts are violations of C12 and of this property's stream
         for ab in ctx.aborts:
